@@ -15,16 +15,20 @@ def fieldNames : List String := ["A", "B", "C", "D", "E", "G", "X", "Y", "U.P", 
 def nFields : Nat := 10
 def fieldName (i : Nat) : String := (fieldNames[i]?).getD "?"
 
+/-- `_` in a string word of the case text stands for a blank (`sa_b` = "a b"; `s` = the empty string) -/
+def unBlank (s : String) : String := s.map fun c => if c = '_' then ' ' else c
+def reBlank (s : String) : String := s.map fun c => if c = ' ' then '_' else c
+
 def parseVal (s : String) : Option Val :=
   if s = "t" then some (.bool true) else if s = "f" then some (.bool false)
   else if s.startsWith "n" then (s.drop 1).toString.toInt?.map .num
   else if s.startsWith "i" then (s.drop 1).toString.toInt?.map .int
-  else if s.startsWith "s" then some (.str (s.drop 1).toString)
+  else if s.startsWith "s" then some (.str (unBlank (s.drop 1).toString))
   else none
 
 def showVal : Val → String
   | .bool true => "t" | .bool false => "f"
-  | .num n => s!"n{n}" | .int n => s!"i{n}" | .str s => "s" ++ s
+  | .num n => s!"n{n}" | .int n => s!"i{n}" | .str s => "s" ++ reBlank s
 
 def parseField (s : String) : Option Nat :=
   if s.startsWith "F" then (s.drop 1).toString.toNat?.bind fun i => if i < nFields then some i else none else none
